@@ -272,7 +272,13 @@ endpats: Final = {
     "'''": r"(?:[^'\\]|\\.|'(?!''))*'''",
     '"""': r'(?:[^"\\]|\\.|"(?!""))*"""',
 }
-StartLBrace = r".*?(?=\{(?!\{)){"
+# literal text of an f-string up to the next replacement field; the search stops at the closing quote
+startpats: Final = {
+    "'": r"(?:[^'\\]|\\(?=\{)|\\.)*?(?=\{(?!\{)){",
+    '"': r'(?:[^"\\]|\\(?=\{)|\\.)*?(?=\{(?!\{)){',
+    "'''": r"(?:[^'\\]|\\(?=\{)|\\.|'(?!''))*?(?=\{(?!\{)){",
+    '"""': r'(?:[^"\\]|\\(?=\{)|\\.|"(?!""))*?(?=\{(?!\{)){',
+}
 EndRBrace = r".*?(?=\}(?!\}))}"
 
 tabsize = 8
@@ -475,7 +481,7 @@ def next_psuedo_matches(state: TokenizerState) -> TokenInfo | None:
         quote = match.group("Quote") or '"'
         if "f" in token.lower():
             token_type = Token.FSTRING_START
-            pattern = choice(LBrace=StartLBrace, End=endpats[quote])
+            pattern = choice(LBrace=startpats[quote], End=endpats[quote])
             state.add_prog(end, end, pattern=pattern, quote=quote, mode=ModeMiddle(state.parenlev))
         else:
             pattern = endpats[quote]
